@@ -93,6 +93,10 @@ def gen(chk):
                 vin = [(bytes(32), 0, b"", 0xffffffff)] * pos + [(ftxid, n, b"", 0xffffffff)]
                 c = {"spend": T.make_tx(2, vin, [(1, b"\x51")], 0).hex(), "fund": fund.hex(), "kind": "novout", "valid": n < nout}
                 add("select", c, sel=pos, label=(True if n < nout else "refused")); add("select", c, label=(True if n < nout else "refused"))
+    # pay-to-script-hash spends whose scriptSig uses every small-integer opcode (all of them are push operations for the push-only rule)
+    for wn in range(17):
+        c = S.build(rng, "p2sh-smallint", wn=wn, mutate=(None if wn % 5 else "scripthash"))
+        add("pairs", c, label=c["valid"]); add("pairs", c, flags=STD | (1 << 5), label=c["valid"])      # also under SIGPUSHONLY
     # a key-path signature that begins with the annex tag 0x50 (a lone witness item is never an annex), valid and corrupted
     for mut in (None, "sigbyte"):
         c = S.build(rng, "p2tr-key", ht=0, enc="sig50", mutate=mut)
